@@ -1036,6 +1036,58 @@ HANDLERS.update({
 })
 
 
+def _hermitian_full(a, ax, n):
+    """half spectrum along `ax` (length m) -> full spectrum of length n as c2r transforms read it: bins above n//2 are the
+    conjugates of their mirror bins; the imaginary parts of the DC (and, for even n, Nyquist) bins are ignored"""
+    from .core import to_S
+    a = np.moveaxis(a, ax, -1)
+    m = a.shape[-1]
+    if m < n // 2 + 1:
+        raise Unsupported("irfft with zero-padded input")
+    out = np.empty(a.shape[:-1] + (n,), dtype=object)
+    for k in range(n):
+        if k <= n // 2:
+            col = a[..., k]
+            if k == 0 or (n % 2 == 0 and k == n // 2):
+                col = _vec(lambda z: to_S(z).real)(col)
+        else:
+            col = _vec(lambda z: to_S(z).conjugate())(a[..., n - k])
+        out[..., k] = col
+    return np.moveaxis(out, -1, ax)
+
+
+def _vec(f):
+    def g(arr):
+        arr = np.asarray(arr, dtype=object)
+        o = np.empty(arr.shape, dtype=object)
+        for idx in np.ndindex(*arr.shape):
+            o[idx] = f(arr[idx])
+        return o if arr.ndim else f(arr.item())
+    return g
+
+
+def _irfftn(x, s, dims, norm):
+    from .core import to_S
+    a = _obj(A(x)).view(np.ndarray)
+    nd = a.ndim
+    dims = [d % nd for d in dims]
+    last = dims[-1]
+    n = int(s[-1]) if s is not None else 2 * (a.shape[last] - 1)
+    if s is not None and any(int(si) != a.shape[d] for si, d in zip(s[:-1], dims[:-1])):
+        raise Unsupported("irfftn with resized leading dimensions")
+    for ax in dims[:-1]:
+        a = dft(a, ax, True, norm).view(np.ndarray)
+    a = _hermitian_full(a, last, n)
+    a = dft(a, last, True, norm).view(np.ndarray)
+    return T(_vec(lambda z: to_S(z).real)(a))
+
+
+HANDLERS.update({
+    "fft_irfft2": lambda x, s=None, dim=(-2, -1), norm=None: _irfftn(x, s, dim, norm),
+    "fft_irfft": lambda x, n=None, dim=-1, norm=None: _irfftn(x, (n,) if n is not None else None, (dim,), norm),
+})
+
+
 # ----------------------------------------------------------------------------------------- module proxy
 class _AnyTensorMeta(type):
     def __instancecheck__(cls, x):
